@@ -126,10 +126,14 @@ export class Env {
           case "boolean":
           case "bigint":
             return { c: "prim", p: t.name };
+          // validators conflate null / undefined / void (member() reads them alike); the semantic engine
+          // does not, so the spelling is kept for Exclude / conditional types
           case "null":
+            return { c: "nullish", w: "null" };
           case "undefined":
+            return { c: "nullish", w: "undefined" };
           case "void":
-            return C.nullish;
+            return { c: "nullish", w: "void" };
           case "any":
           case "unknown":
             return C.any;
@@ -193,6 +197,18 @@ export class Env {
       case "mapped":
         return this.normMapped(t, scope);
       case "cond": {
+        // distributive over a union bound to a naked type parameter: F<A | B> = F<A> | F<B>
+        if (t.check.k === "ref" && !(t.check.args || []).length && scope && scope.has(t.check.name)) {
+          const ms = this.expandBool(this.unionMembers(scope.get(t.check.name)));
+          if (ms.length !== 1) {
+            const parts = ms.map((m) => {
+              const inner = new Map(scope);
+              inner.set(t.check.name, m);
+              return this.norm(t, inner);
+            });
+            return this.recombineBool(parts.flatMap((x) => this.unionMembers(x)));
+          }
+        }
         const a = this.norm(t.check, scope);
         const b = this.norm(t.ext, scope);
         const r = this.assignable(a, b);
@@ -476,7 +492,10 @@ export class Env {
     const ka = Env.kindOf(a),
       kb = Env.kindOf(b);
     if (ka && kb && ka !== kb) return false;
-    if (a.c === "nullish" && b.c === "nullish") return true;
+    if (a.c === "nullish" && b.c === "nullish") {
+      if (!a.w || !b.w) return null;
+      return a.w === b.w || (a.w === "undefined" && b.w === "void");
+    }
     if ((ka === "nullish" && b.c === "obj") || (a.c === "obj" && kb === "nullish")) return false;
     if ((a.c === "tuple" || a.c === "arr") && (b.c === "tuple" || b.c === "arr")) {
       const all = (pairs) => {
@@ -535,6 +554,11 @@ export class Env {
       kb = Env.kindOf(b);
     if (ka && kb && ka !== kb) return true;
     if ((ka === "nullish" && b.c === "obj") || (a.c === "obj" && kb === "nullish")) return true;
+    if (a.c === "nullish" && b.c === "nullish") {
+      if (!a.w || !b.w) return null;
+      const same = (x) => (x === "void" ? "undefined" : x);
+      return same(a.w) !== same(b.w) ? true : false;
+    }
     if (a.c === "tuple" && b.c === "tuple" && !a.rest && !b.rest) {
       if (a.items.length !== b.items.length) return true;
       this._fuel = (this._fuel ?? 0) + 1;
